@@ -162,6 +162,15 @@ def oracle_C02(case, obs):
                 if b < a and b < Fraction(spec["min"]) and st["exc"] is None:
                     bad.append(f"min: well {j} of {spec['name']} was taken below min_volume by call {i} ({op['op']}) which returned normally")
                     break
+        if op["op"] in ("transfer", "distribute") and st["exc"] is None and case["dev"] != "base":
+            ev = expected_events(case, op)
+            if ev is not None:
+                want = [[Fraction(v) for v in prev_lw(obs, i)[k]["vols"]] for k in range(len(L))]
+                for (k, j, dv) in ev:
+                    want[k][j] += dv
+                over = any(want[k][j] > Fraction(L[k]["max"]) or want[k][j] < 0 for k in range(len(L)) for j in range(len(want[k])))
+                if any(vols_of(st, k) != want[k] for k in range(len(L))) and over:
+                    bad.append(f"swallowed: call {i} ({op['op']}) returned normally although the requested volumes violate a limit (no volume violation was raised)")
         # exact limit behaviour of the direct and single-step operations
         if op["op"] in ("add", "remove", "aspirate", "dispense"):
             ev = expected_events(case, op)
@@ -834,6 +843,31 @@ def oracle_C01(case, obs):
                 if abs(a - b) > Fraction(rack.touch[j], 200):
                     bad.append(f"volume: after call {i} ({k}) the replayed worklist gives well {j} of {L[kk]['name']} {float(a)} but the Labware reports {float(b)}")
                     break
+        if k == "transfer" and not exact_transfer(case, op):
+            comp_ok = False
+        if k == "distribute":
+            vd = num(op["volume"])
+            if vd is None or (vd * 100).denominator != 1:
+                comp_ok = False
+        if comp_ok and k in ("transfer", "distribute") and not bad:
+            for kk, comp in st["comp"].items():
+                rack = robot.racks[L[int(kk)]["name"]]
+                got = {}
+                for c, ent in (comp or {}).items():
+                    for j, f in ent:
+                        if f == f and abs(f) != float("inf"):
+                            got.setdefault(j, {})[c] = Fraction(f)
+                for j in range(len(rack.vol)):
+                    if rack.vol[j] <= 0 or not rack.known[j]:
+                        continue
+                    want = rack.fractions(j)
+                    g = got.get(j, {})
+                    for c in set(want) | set(g):
+                        if abs(want.get(c, 0) - g.get(c, 0)) > Fraction(1, 10 ** 9):
+                            bad.append(f"composition: after call {i} ({k}) the replayed worklist gives well {j} of {L[int(kk)]['name']} {float(want.get(c, 0))} of {c!r}, the Labware reports {float(g.get(c, 0))}")
+                            break
+                    if bad:
+                        break
         if any(not b.startswith("distribute-source") for b in bad):
             break
     # compositions: compare at the end when every record volume was exact and all liquid is of known origin
@@ -896,6 +930,10 @@ def oracle_C03(case, obs):
                 v = Fraction(r.split(";")[6])
                 if v > mv + Fraction(1, 200):
                     bad.append(f"oversized: call {i} ({k}) emitted a pipetting step of {v} above max_volume {mv}")
+            if is_script(r):
+                d = decode_cmd(r)
+                if d is not None and any(v > mv + Fraction(1, 200) for v in d["vols"]):
+                    bad.append(f"oversized: call {i} ({k}) emitted a script command with a per-tip volume of {max(d['vols'])} above max_volume {mv}")
         if k == "transfer" and not case["wl"]["auto_split"]:
             tr = triples_of(op)
             if tr and st["exc"] is None and any(v > mv for _, _, v in tr):
